@@ -41,12 +41,12 @@ RULE = (
 EXHAUSTIVE = {"quick": True, "thorough": True}
 EXHAUSTIVE_PART = "workload B: all failure points of each listed layout (quick 2 layouts, thorough 12); thorough: all restart points of each layout"
 TOLERANCES = {"recomputed_rel": 1e-9}
-FLOORS = {"quick": {"A.load-vs-model": 100, "A.listing": 15, "A.history": 30, "A.history-by-location": 15, "A.merge": 15, "A.split": 12, "A.rewrite-refused": 15, "A.identity.fresh-object": 8, "A.history.step-before-object-existed": 2,
+FLOORS = {"quick": {"A.load-vs-model": 100, "A.listing": 15, "A.history": 30, "A.history-by-location": 15, "A.merge": 15, "A.split": 12, "A.split.first-listed-not-earliest-cycle": 2, "A.rewrite-refused": 15, "A.identity.fresh-object": 8, "A.history.step-before-object-existed": 2,
                     "A.history-by-location.below-assembly-level": 8, "A.history.unset-value-expected": 100, "A.history.never-assigned-parameter": 50, "A.twin-load-at-write": 50,
                     "A.write-context-exit.exception": 12, "A.write-context-exit.clean": 12,
                     "B.run-with-failure": 40, "B.run-complete": 1, "B.snapshot-compared": 100, "hook:Database.writeToDB": 200,
                     "B.restart-complete": 1, "B.restart-with-failure": 1, "B.restart.merged-group-compared": 6, "hook:DatabaseInterface.prepRestartRun": 2},
-          "thorough": {"A.load-vs-model": 1500, "A.listing": 200, "A.history": 400, "A.history-by-location": 200, "A.merge": 200, "A.split": 150, "A.rewrite-refused": 200, "A.identity.fresh-object": 120, "A.history.step-before-object-existed": 30,
+          "thorough": {"A.load-vs-model": 1500, "A.listing": 200, "A.history": 400, "A.history-by-location": 200, "A.merge": 200, "A.split": 150, "A.split.first-listed-not-earliest-cycle": 15, "A.rewrite-refused": 200, "A.identity.fresh-object": 120, "A.history.step-before-object-existed": 30,
                        "A.history-by-location.below-assembly-level": 100, "A.history.unset-value-expected": 1000, "A.history.never-assigned-parameter": 500, "A.twin-load-at-write": 600,
                        "A.write-context-exit.exception": 160, "A.write-context-exit.clean": 160,
                        "B.run-with-failure": 250, "B.run-complete": 6, "B.snapshot-compared": 1200, "hook:Database.writeToDB": 3000,
@@ -433,6 +433,14 @@ def history_case(rec, rng, nevents, case):
                 if not plain:
                     continue
                 keep = sorted(rng.sample(plain, rng.randint(1, len(plain))))
+                # the steps to keep are a set of time steps: the caller may list them in any order (latest first, shuffled)
+                how = rng.choice(["ascending", "descending", "shuffled", "shuffled"])
+                if how == "descending":
+                    keep.reverse()
+                elif how == "shuffled":
+                    rng.shuffle(keep)
+                if len(keep) > 1 and keep[0][0] != min(k[0] for k in keep):
+                    rec.hit("A.split.first-listed-not-earliest-cycle")
                 rec.hit("A.split")
                 # split works on a finished file: copy the live db content into a scratch file first
                 db.h5db.flush()
@@ -443,8 +451,9 @@ def history_case(rec, rng, nevents, case):
                 sdb = Database(src, "a")
                 sdb.open()
                 try:
-                    backup = sdb.splitDatabase([(k[0], k[1]) for k in keep], "-all")
-                    minc = keep[0][0]
+                    arg = [(k[0], k[1]) for k in keep]
+                    backup = sdb.splitDatabase(tuple(arg) if rng.random() < .3 else arg, "-all")
+                    minc = min(k[0] for k in keep)  # documented: cycles are renumbered from the earliest kept cycle
                     names = sorted(g.name.strip("/") for g in sdb.genTimeStepGroups())
                     exp = sorted(gname(k[0] - minc, k[1]) for k in keep)
                     if names != exp:
